@@ -7,16 +7,52 @@ ASSUMPTIONS = ['each shared access between two synchronisation calls is atomic (
 
 
 def main(tier, seed, replay=None):
-    ck, ok = CC.run_property("C18", tier, seed, replay, ['subchannel', 'subchannel', 'subchannel_dropped', 'produce', 'consume', 'consume_eof', 'status', 'both_drop_cb', 'sendonly_roundtrip'], lambda s: s.startswith(('channel-id-parity', 'subchannel-', 'channel-over-channel', 'channel-over-dropped-carrier', 'channel-tables-not-back', 'channel-id-handed-out-twice', 'reconfigure-')), None, ASSUMPTIONS, extra=EXTRA)
+    ck, ok = CC.run_property("C18", tier, seed, replay, ['subchannel', 'subchannel', 'subchannel_dropped', 'produce', 'consume', 'consume_eof', 'status', 'both_drop_cb', 'sendonly_roundtrip'], lambda s: s.startswith(('channel-id-parity', 'subchannel-', 'channel-over-channel', 'channel-over-dropped-carrier', 'channel-tables-not-back', 'channel-id-handed-out-twice', 'reconfigure-', 'channel-of-another-gateway')), None, ASSUMPTIONS, extra=EXTRA)
     try:
         from props import chan_model
 
         chan_model.correspondence(ck, ok, "C18", tier, replay)
         chan_model.ids_correspondence(ck, ok, tier, replay)
         chan_model.reconf_correspondence(ck, ok, tier, replay)
+        if not replay:
+            foreign_channel(ck)
     except ImportError:
         pass
     return ck.finish(rule='programs where both sides create channels concurrently (remote_exec, newchannel on the worker and on the initiator), channels travel over channels in both directions and every conversation is closed; afterwards the channel and callback tables of both gateways must be empty; random/PCT schedules with line-level preemption.')
+
+
+def foreign_channel(ck):
+    """a channel of gateway A sent through a channel of gateway B (real gateways): it must be refused, or at least not end up
+    connected to an independently created channel of B that happens to have the same id"""
+    import execnet
+    from props import xport as X
+
+    g = execnet.Group()
+    try:
+        a = g.makegateway("popen//id=xa")
+        b = g.makegateway("popen//id=xb")
+        own_b = b.newchannel()
+        chb = b.remote_exec("c = channel.receive()\nc.send('to-whom')\nchannel.send('sent')")
+        foreign = a.newchannel()
+        while foreign.id < chb.id:            # give it the id of an existing, independently created channel of B (the exec channel)
+            foreign = a.newchannel()
+        ck.case(("foreign-channel", foreign.id == chb.id), nontrivial=True)
+        try:
+            chb.send(foreign)
+        except Exception:  # noqa  (refused: fine)
+            return
+        got = []
+        try:
+            for _ in range(2):
+                got.append(chb.receive(5))
+        except Exception as e:  # noqa
+            got.append(type(e).__name__)
+        if "to-whom" in got:
+            ck.fail("channel-of-another-gateway-cross-connected", {"foreign_id": foreign.id, "exec_channel_id": chb.id, "exec_channel_got": got})
+    except Exception as e:  # noqa
+        ck.broke("correspondence", "foreign-channel-probe", repr(e)[:200])
+    finally:
+        X.with_timeout(lambda: g.terminate(timeout=2), 20)
 
 
 EXTRA = None
